@@ -95,6 +95,7 @@ def stored_names(node):
 
 
 def mentions(text, name):
+    text = re.sub(r"'[^']*'|\"[^\"]*\"", "''", text)     # names inside string literals are not variables
     return re.search(r"(?<![A-Za-z0-9_.])%s(?![A-Za-z0-9_])" % re.escape(name), text) is not None
 
 
@@ -108,6 +109,10 @@ class PyFacts(ir.Client):
     def cond(self, cond, cfg):
         if self.on_cond and self.record:
             self.on_cond(cond, cfg)
+        if self.gen:
+            g = self.gen(cond)
+            if g:
+                cfg = cfg | frozenset(g)
         return cfg
 
     def _kill(self, names, cfg):
